@@ -1,52 +1,20 @@
 /*@unit {
- 'kind': 'proof', 'mode': 'dfcc',
+ 'kind': 'bounded', 'mode': 'plain',
+ 'bound': 's1: NUL at index 3 (strlen 0..3, earlier NULs allowed); n from {0,1,3,4,5,8,11} (up to two rounds of the 4x-unrolled loop + 3 remainder iterations); s2 object of 1, 6 or 12 bytes (terminated, or unterminated with >= n bytes); contents symbolic; interior pointers (offset 3); all loops fully unwound (--unwind 14 with unwinding assertions)',
  'functions': ['strncat'],
- 'trusted': ['mode dfcc because cbmc legacy loop contracts do not support do-while loops with a side-effect-free condition'],
- 'clauses': 'ISO 7.24.3.2 strncat: appends at most n characters of s2 (nothing after a NUL) to the end of the string s1 and always a terminating NUL (min(strlen(s2), n) + 1 bytes written, the first one over the old terminator); returns s1; unterminated s2 of >= n bytes is a legal operand; every other byte of the destination object unchanged; n == 0 changes nothing. All three copy loops (4x unrolled, remainder) and the final NUL',
- 'inject': [{'file': 'compat/libc/string/strncat.c', 'func': 'strncat', 'ghost': 'g_d0 = s1; g_s20 = s2; g_n0 = n;', 'at': 'func-begin'},
-            {'file': 'compat/libc/string/strncat.c', 'func': 'strncat', 'loop': 0, 'expect': 'do',
-             'assigns': 's1, c',
-             'invariants': ['__CPROVER_same_object(s1, g_d0) && C08_IDX(s1, g_d0) <= g_Ld',
-                            'C08_IMP(g_k < C08_IDX(s1, g_d0), g_d0[g_k] != 0)'],
-             'decreases': 'g_Ld - C08_IDX(s1, g_d0)'},
-            {'file': 'compat/libc/string/strncat.c', 'func': 'strncat', 'ghost': 'g_dlen = C08_IDX(s1, g_d0) - 1; g_w = 0;', 'at': 'before', 'anchor': 's1 -= 2;'},
-            {'file': 'compat/libc/string/strncat.c', 'func': 'strncat', 'loop': 1, 'expect': 'while (--n4 > 0)',
-             'assigns': 's1, s2, c, n4, g_w, __CPROVER_object_whole(g_d0)',
-             'invariants': ['n4 >= 1 && n == g_n0 && C08_IDX(s2, g_s20) + 4 * n4 == 4 * (g_n0 >> 2)',
-                            '__CPROVER_same_object(s1, g_d0) && __CPROVER_same_object(s2, g_s20) && C08_IDX(s2, g_s20) <= g_lim',
-                            's1 + 1 == g_d0 + (g_dlen + C08_IDX(s2, g_s20)) && g_dlen <= g_Ld && g_w == C08_IDX(s2, g_s20)',
-                            '(C08_IDX(s2, g_s20) == 0) == (c == 0)',
-                            'C08_IMP(g_j < C08_IDX(s2, g_s20), g_sv != 0 && g_d0[g_dlen + g_j] == g_sv)',
-                            'C08_IMP(!(g_fp >= g_d0 + g_dlen && g_fp < g_d0 + g_dlen + C08_IDX(s2, g_s20)), *g_fp == g_fv)'],
-             'decreases': 'n4'},
-            {'file': 'compat/libc/string/strncat.c', 'func': 'strncat', 'loop': 2, 'expect': 'while (n > 0)',
-             'assigns': 's1, s2, c, n, g_w, __CPROVER_object_whole(g_d0)',
-             'invariants': ['C08_IDX(s2, g_s20) + n == g_n0',
-                            '__CPROVER_same_object(s1, g_d0) && __CPROVER_same_object(s2, g_s20) && C08_IDX(s2, g_s20) <= g_lim',
-                            's1 + 1 == g_d0 + (g_dlen + C08_IDX(s2, g_s20)) && g_dlen <= g_Ld && g_w == C08_IDX(s2, g_s20)',
-                            '(C08_IDX(s2, g_s20) == 0) == (c == 0)',
-                            'C08_IMP(g_j < C08_IDX(s2, g_s20), g_sv != 0 && g_d0[g_dlen + g_j] == g_sv)',
-                            'C08_IMP(!(g_fp >= g_d0 + g_dlen && g_fp < g_d0 + g_dlen + C08_IDX(s2, g_s20)), *g_fp == g_fv)'],
-             'decreases': 'n'},
-            {'file': 'compat/libc/string/strncat.c', 'func': 'strncat', 'ghost': 'g_w = C08_IDX(s1, g_d0) + 1 - g_dlen;', 'at': 'after', 'anchor': "do {\n\t\t\tc = *s2++;\n\t\t\t*++s1 = c;"},
-            {'file': 'compat/libc/string/strncat.c', 'func': 'strncat', 'ghost': 'g_w = C08_IDX(s1, g_d0) + 1 - g_dlen;', 'at': 'after', 'anchor': "do {\n\t\t\tc = *s2++;\n\t\t\t*++s1 = c;\n\t\t\tif (c == '\\0')\n\t\t\t\treturn s;\n\t\t\tc = *s2++;\n\t\t\t*++s1 = c;"},
-            {'file': 'compat/libc/string/strncat.c', 'func': 'strncat', 'ghost': 'g_w = C08_IDX(s1, g_d0) + 1 - g_dlen;', 'at': 'after', 'anchor': "do {\n\t\t\tc = *s2++;\n\t\t\t*++s1 = c;\n\t\t\tif (c == '\\0')\n\t\t\t\treturn s;\n\t\t\tc = *s2++;\n\t\t\t*++s1 = c;\n\t\t\tif (c == '\\0')\n\t\t\t\treturn s;\n\t\t\tc = *s2++;\n\t\t\t*++s1 = c;"},
-            {'file': 'compat/libc/string/strncat.c', 'func': 'strncat', 'ghost': 'g_w = C08_IDX(s1, g_d0) + 1 - g_dlen;', 'at': 'after', 'anchor': "do {\n\t\t\tc = *s2++;\n\t\t\t*++s1 = c;\n\t\t\tif (c == '\\0')\n\t\t\t\treturn s;\n\t\t\tc = *s2++;\n\t\t\t*++s1 = c;\n\t\t\tif (c == '\\0')\n\t\t\t\treturn s;\n\t\t\tc = *s2++;\n\t\t\t*++s1 = c;\n\t\t\tif (c == '\\0')\n\t\t\t\treturn s;\n\t\t\tc = *s2++;\n\t\t\t*++s1 = c;"},
-            {'file': 'compat/libc/string/strncat.c', 'func': 'strncat', 'ghost': 'g_w = C08_IDX(s1, g_d0) + 1 - g_dlen;', 'at': 'after', 'anchor': "while (n > 0) {\n\t\tc = *s2++;\n\t\t*++s1 = c;"},
-            {'file': 'compat/libc/string/strncat.c', 'func': 'strncat', 'ghost': 'g_w = C08_IDX(s1, g_d0) + 1 - g_dlen;', 'at': 'after', 'anchor': "*++s1 = '\\0';"}],
- 'ghost_calls': ['C08_IDX'],
+ 'clauses': 'ISO 7.24.3.2 strncat: appends at most n characters of s2 (nothing after a NUL) to the end of the string s1 and always a terminating NUL (min(strlen(s2), n) + 1 bytes written, the first one over the old terminator); returns s1; unterminated s2 of >= n bytes is a legal operand; every other byte of the destination object unchanged; n == 0 changes nothing. BOUNDED stand-in: two of the three loops are do-while loops with a side-effect-free condition, which cbmc legacy loop contracts reject, and the --dfcc instrumentation of the 4x-unrolled copy loop runs out of memory (24 GB) - see NOTES.md',
+ 'unwind': 14,
+ 'params': {'N': [0, 1, 3, 4, 5, 8, 11], 'SS': [1, 6, 12]},
+ 'defines': ['C08_BOUNDED', 'C08_FIXOFF=3'],
  'assumptions': ['strncat: s1 and s2 are distinct objects (ISO: no overlap); s2 is an object of ss bytes that is NUL-terminated (last byte) or has ss >= n; the destination object has room for Ld + min(n, bound of strlen(s2)) + 1 bytes (writes beyond the new terminator are caught by the frame clause)'],
- 'params': {'C08_FIXOFF': [0]}, 'params_thorough': {'C08_FIXOFF': [0, 3]},
- 'mem_gb': 24, 'timeout': 900,
- 'witness': {'unwind': 12},
+ 'witness': {'unwind': 14},
 } @*/
 #include "c08_harness.h"
 #include "c08_string.h"
-const char *g_d0, *g_s20; /* ghost: initial s1 / s2 (both parameters are advanced) */
-size_t g_n0, g_Ld, g_lim, g_k, g_j;
+size_t g_Ld, g_lim, g_k, g_j;
 char g_sv;             /* old s2[g_j] */
-size_t g_dlen;         /* ghost output: strlen(s1) before the call */
-size_t g_w;            /* ghost output: number of bytes written (appended characters + the terminator) */
+size_t g_dlen;         /* witness: strlen(s1) before the call */
+size_t g_w;            /* witness: number of bytes to be written (appended characters + the terminator; 0 for n == 0) */
 const char *g_fp; char g_fv; /* ghost frame byte of the destination object and its old value */
 #include "compat/libc/string/strncat.c"
 
@@ -64,6 +32,9 @@ void harness(void)
     WIT_ARR(char, cs, 6);
     WIT_ARR(char, cd, 6);
     __CPROVER_assume(C08_OFF_OK(offs) && C08_OFF_OK(offd) && ss <= VC_MAXOBJ && n <= VC_MAXOBJ && Ld < VC_MAXOBJ && tail <= 8);
+#ifdef C08_BOUNDED
+    __CPROVER_assume(ss == SS && n == N && Ld == 3 && tail == 2);
+#endif
     char *sbase = NEW_OBJ(offs + ss);
     FILL(sbase, offs + ss, cs);
     char *src = sbase + offs;
@@ -82,15 +53,15 @@ void harness(void)
     __CPROVER_assume(f < dsize);
     g_fp = dbase + f; g_fv = dbase[f];
 
-    char *r = vc_strncat(dst, src, n);
-
-#ifdef WITNESS_MODE /* no ghost statements in the concretisation / native run: recompute the witnesses */
+    /* witnesses computed by reference loops on the old content (sizes are bounded in this unit) */
     g_dlen = 0;
-    while (k != g_dlen && g_dlen < Ld && (g_fp == dst + g_dlen ? g_fv : dst[g_dlen])) g_dlen++; /* best effort on the modified buffer */
+    while (dst[g_dlen]) g_dlen++;
     g_w = 0;
     while (g_w < n && src[g_w]) g_w++;
     if (n > 0) g_w++;
-#endif
+
+    char *r = vc_strncat(dst, src, n);
+
     size_t dl = g_dlen;
     size_t m = g_w ? g_w - 1 : 0; /* characters appended; g_w == 0 only for n == 0 */
     __CPROVER_assert(r == dst, "strncat: returns s1");
